@@ -28,6 +28,15 @@ model/VammOps.vos model/VammOps.vok model/VammOps.required_vos: model/VammOps.v 
 model/World.vo model/World.glob model/World.v.beautified model/World.required_vo: model/World.v model/Prelude.vo model/U128.vo model/SInt.vo model/Feed.vo model/Vamm.vo model/Token.vo
 model/World.vio: model/World.v model/Prelude.vio model/U128.vio model/SInt.vio model/Feed.vio model/Vamm.vio model/Token.vio
 model/World.vos model/World.vok model/World.required_vos: model/World.v model/Prelude.vos model/U128.vos model/SInt.vos model/Feed.vos model/Vamm.vos model/Token.vos
+proofs/EngineGuards.vo proofs/EngineGuards.glob proofs/EngineGuards.v.beautified proofs/EngineGuards.required_vo: proofs/EngineGuards.v model/Prelude.vo model/U128.vo model/SInt.vo model/Feed.vo model/Vamm.vo model/VammOps.vo model/Token.vo model/World.vo model/Engine.vo model/Runtime.vo proofs/Tactics.vo proofs/SIntFacts.vo
+proofs/EngineGuards.vio: proofs/EngineGuards.v model/Prelude.vio model/U128.vio model/SInt.vio model/Feed.vio model/Vamm.vio model/VammOps.vio model/Token.vio model/World.vio model/Engine.vio model/Runtime.vio proofs/Tactics.vio proofs/SIntFacts.vio
+proofs/EngineGuards.vos proofs/EngineGuards.vok proofs/EngineGuards.required_vos: proofs/EngineGuards.v model/Prelude.vos model/U128.vos model/SInt.vos model/Feed.vos model/Vamm.vos model/VammOps.vos model/Token.vos model/World.vos model/Engine.vos model/Runtime.vos proofs/Tactics.vos proofs/SIntFacts.vos
+proofs/LedgerFacts.vo proofs/LedgerFacts.glob proofs/LedgerFacts.v.beautified proofs/LedgerFacts.required_vo: proofs/LedgerFacts.v model/Prelude.vo model/U128.vo model/SInt.vo model/Feed.vo model/Vamm.vo model/VammOps.vo model/Token.vo model/World.vo model/Engine.vo model/Runtime.vo proofs/Tactics.vo proofs/RuntimeFacts.vo
+proofs/LedgerFacts.vio: proofs/LedgerFacts.v model/Prelude.vio model/U128.vio model/SInt.vio model/Feed.vio model/Vamm.vio model/VammOps.vio model/Token.vio model/World.vio model/Engine.vio model/Runtime.vio proofs/Tactics.vio proofs/RuntimeFacts.vio
+proofs/LedgerFacts.vos proofs/LedgerFacts.vok proofs/LedgerFacts.required_vos: proofs/LedgerFacts.v model/Prelude.vos model/U128.vos model/SInt.vos model/Feed.vos model/Vamm.vos model/VammOps.vos model/Token.vos model/World.vos model/Engine.vos model/Runtime.vos proofs/Tactics.vos proofs/RuntimeFacts.vos
+proofs/RuntimeFacts.vo proofs/RuntimeFacts.glob proofs/RuntimeFacts.v.beautified proofs/RuntimeFacts.required_vo: proofs/RuntimeFacts.v model/Prelude.vo model/U128.vo model/SInt.vo model/Feed.vo model/Vamm.vo model/VammOps.vo model/Token.vo model/World.vo model/Engine.vo model/Runtime.vo proofs/Tactics.vo
+proofs/RuntimeFacts.vio: proofs/RuntimeFacts.v model/Prelude.vio model/U128.vio model/SInt.vio model/Feed.vio model/Vamm.vio model/VammOps.vio model/Token.vio model/World.vio model/Engine.vio model/Runtime.vio proofs/Tactics.vio
+proofs/RuntimeFacts.vos proofs/RuntimeFacts.vok proofs/RuntimeFacts.required_vos: proofs/RuntimeFacts.v model/Prelude.vos model/U128.vos model/SInt.vos model/Feed.vos model/Vamm.vos model/VammOps.vos model/Token.vos model/World.vos model/Engine.vos model/Runtime.vos proofs/Tactics.vos
 proofs/SIntFacts.vo proofs/SIntFacts.glob proofs/SIntFacts.v.beautified proofs/SIntFacts.required_vo: proofs/SIntFacts.v model/Prelude.vo model/U128.vo model/SInt.vo proofs/Tactics.vo
 proofs/SIntFacts.vio: proofs/SIntFacts.v model/Prelude.vio model/U128.vio model/SInt.vio proofs/Tactics.vio
 proofs/SIntFacts.vos proofs/SIntFacts.vok proofs/SIntFacts.required_vos: proofs/SIntFacts.v model/Prelude.vos model/U128.vos model/SInt.vos proofs/Tactics.vos
@@ -40,6 +49,24 @@ proofs/VammFacts.vos proofs/VammFacts.vok proofs/VammFacts.required_vos: proofs/
 props/C01.vo props/C01.glob props/C01.v.beautified props/C01.required_vo: props/C01.v model/Prelude.vo model/U128.vo model/SInt.vo model/Feed.vo model/Vamm.vo model/VammOps.vo proofs/Tactics.vo proofs/SIntFacts.vo proofs/VammFacts.vo
 props/C01.vio: props/C01.v model/Prelude.vio model/U128.vio model/SInt.vio model/Feed.vio model/Vamm.vio model/VammOps.vio proofs/Tactics.vio proofs/SIntFacts.vio proofs/VammFacts.vio
 props/C01.vos props/C01.vok props/C01.required_vos: props/C01.v model/Prelude.vos model/U128.vos model/SInt.vos model/Feed.vos model/Vamm.vos model/VammOps.vos proofs/Tactics.vos proofs/SIntFacts.vos proofs/VammFacts.vos
+props/C03.vo props/C03.glob props/C03.v.beautified props/C03.required_vo: props/C03.v model/Prelude.vo model/U128.vo model/SInt.vo model/Feed.vo model/Vamm.vo model/VammOps.vo model/Token.vo model/World.vo model/Engine.vo model/Runtime.vo proofs/Tactics.vo proofs/RuntimeFacts.vo proofs/LedgerFacts.vo
+props/C03.vio: props/C03.v model/Prelude.vio model/U128.vio model/SInt.vio model/Feed.vio model/Vamm.vio model/VammOps.vio model/Token.vio model/World.vio model/Engine.vio model/Runtime.vio proofs/Tactics.vio proofs/RuntimeFacts.vio proofs/LedgerFacts.vio
+props/C03.vos props/C03.vok props/C03.required_vos: props/C03.v model/Prelude.vos model/U128.vos model/SInt.vos model/Feed.vos model/Vamm.vos model/VammOps.vos model/Token.vos model/World.vos model/Engine.vos model/Runtime.vos proofs/Tactics.vos proofs/RuntimeFacts.vos proofs/LedgerFacts.vos
+props/C05.vo props/C05.glob props/C05.v.beautified props/C05.required_vo: props/C05.v model/Prelude.vo model/U128.vo model/SInt.vo model/Feed.vo model/Vamm.vo model/VammOps.vo model/Token.vo model/World.vo model/Engine.vo model/Runtime.vo proofs/Tactics.vo proofs/EngineGuards.vo
+props/C05.vio: props/C05.v model/Prelude.vio model/U128.vio model/SInt.vio model/Feed.vio model/Vamm.vio model/VammOps.vio model/Token.vio model/World.vio model/Engine.vio model/Runtime.vio proofs/Tactics.vio proofs/EngineGuards.vio
+props/C05.vos props/C05.vok props/C05.required_vos: props/C05.v model/Prelude.vos model/U128.vos model/SInt.vos model/Feed.vos model/Vamm.vos model/VammOps.vos model/Token.vos model/World.vos model/Engine.vos model/Runtime.vos proofs/Tactics.vos proofs/EngineGuards.vos
+props/C08.vo props/C08.glob props/C08.v.beautified props/C08.required_vo: props/C08.v model/Prelude.vo model/U128.vo model/SInt.vo model/Feed.vo model/Vamm.vo model/VammOps.vo model/Token.vo model/World.vo model/Engine.vo model/Runtime.vo proofs/Tactics.vo proofs/RuntimeFacts.vo
+props/C08.vio: props/C08.v model/Prelude.vio model/U128.vio model/SInt.vio model/Feed.vio model/Vamm.vio model/VammOps.vio model/Token.vio model/World.vio model/Engine.vio model/Runtime.vio proofs/Tactics.vio proofs/RuntimeFacts.vio
+props/C08.vos props/C08.vok props/C08.required_vos: props/C08.v model/Prelude.vos model/U128.vos model/SInt.vos model/Feed.vos model/Vamm.vos model/VammOps.vos model/Token.vos model/World.vos model/Engine.vos model/Runtime.vos proofs/Tactics.vos proofs/RuntimeFacts.vos
+props/C11.vo props/C11.glob props/C11.v.beautified props/C11.required_vo: props/C11.v model/Prelude.vo model/U128.vo model/SInt.vo model/Feed.vo model/Vamm.vo model/VammOps.vo model/Token.vo model/World.vo model/Engine.vo model/Runtime.vo proofs/Tactics.vo proofs/EngineGuards.vo
+props/C11.vio: props/C11.v model/Prelude.vio model/U128.vio model/SInt.vio model/Feed.vio model/Vamm.vio model/VammOps.vio model/Token.vio model/World.vio model/Engine.vio model/Runtime.vio proofs/Tactics.vio proofs/EngineGuards.vio
+props/C11.vos props/C11.vok props/C11.required_vos: props/C11.v model/Prelude.vos model/U128.vos model/SInt.vos model/Feed.vos model/Vamm.vos model/VammOps.vos model/Token.vos model/World.vos model/Engine.vos model/Runtime.vos proofs/Tactics.vos proofs/EngineGuards.vos
+props/C14.vo props/C14.glob props/C14.v.beautified props/C14.required_vo: props/C14.v model/Prelude.vo model/U128.vo model/SInt.vo model/Feed.vo model/Vamm.vo model/VammOps.vo model/Token.vo model/World.vo model/Engine.vo model/Runtime.vo proofs/Tactics.vo proofs/EngineGuards.vo
+props/C14.vio: props/C14.v model/Prelude.vio model/U128.vio model/SInt.vio model/Feed.vio model/Vamm.vio model/VammOps.vio model/Token.vio model/World.vio model/Engine.vio model/Runtime.vio proofs/Tactics.vio proofs/EngineGuards.vio
+props/C14.vos props/C14.vok props/C14.required_vos: props/C14.v model/Prelude.vos model/U128.vos model/SInt.vos model/Feed.vos model/Vamm.vos model/VammOps.vos model/Token.vos model/World.vos model/Engine.vos model/Runtime.vos proofs/Tactics.vos proofs/EngineGuards.vos
+props/C16.vo props/C16.glob props/C16.v.beautified props/C16.required_vo: props/C16.v model/Prelude.vo model/U128.vo model/SInt.vo model/Feed.vo model/Vamm.vo model/VammOps.vo model/Token.vo model/World.vo model/Engine.vo model/Runtime.vo proofs/Tactics.vo proofs/EngineGuards.vo
+props/C16.vio: props/C16.v model/Prelude.vio model/U128.vio model/SInt.vio model/Feed.vio model/Vamm.vio model/VammOps.vio model/Token.vio model/World.vio model/Engine.vio model/Runtime.vio proofs/Tactics.vio proofs/EngineGuards.vio
+props/C16.vos props/C16.vok props/C16.required_vos: props/C16.v model/Prelude.vos model/U128.vos model/SInt.vos model/Feed.vos model/Vamm.vos model/VammOps.vos model/Token.vos model/World.vos model/Engine.vos model/Runtime.vos proofs/Tactics.vos proofs/EngineGuards.vos
 props/C19.vo props/C19.glob props/C19.v.beautified props/C19.required_vo: props/C19.v model/Prelude.vo model/U128.vo model/SInt.vo proofs/Tactics.vo proofs/SIntFacts.vo
 props/C19.vio: props/C19.v model/Prelude.vio model/U128.vio model/SInt.vio proofs/Tactics.vio proofs/SIntFacts.vio
 props/C19.vos props/C19.vok props/C19.required_vos: props/C19.v model/Prelude.vos model/U128.vos model/SInt.vos proofs/Tactics.vos proofs/SIntFacts.vos
